@@ -103,3 +103,87 @@ func VF_C17_CompoundExplain(shape int, boosted int) {
 	}
 	vfAssert(vfSameFloat(off.Score, want), "compound score = (sum of matching parts) * boost")
 }
+
+// a leaf with two postings (docs 5 and 9), a symbolic score for each
+type vfTwoHitLeaf struct {
+	scores [2]float64
+	pos    int
+}
+
+var vfTwoHitDocs = [2]uint64{5, 9}
+
+func (l *vfTwoHitLeaf) Next(ctx *search.Context) (*search.DocumentMatch, error) {
+	if l.pos >= 2 {
+		return nil, nil
+	}
+	d := ctx.DocumentMatchPool.Get()
+	d.Number = vfTwoHitDocs[l.pos]
+	d.Score = l.scores[l.pos]
+	d.Explanation = search.NewExplanation(l.scores[l.pos], "leaf")
+	l.pos++
+	return d, nil
+}
+func (l *vfTwoHitLeaf) Advance(ctx *search.Context, n uint64) (*search.DocumentMatch, error) {
+	for l.pos < 2 && vfTwoHitDocs[l.pos] < n {
+		l.pos++
+	}
+	return l.Next(ctx)
+}
+func (l *vfTwoHitLeaf) Close() error               { return nil }
+func (l *vfTwoHitLeaf) Count() uint64              { return 2 }
+func (l *vfTwoHitLeaf) Min() int                   { return 0 }
+func (l *vfTwoHitLeaf) Size() int                  { return 16 }
+func (l *vfTwoHitLeaf) DocumentMatchPoolSize() int { return 1 }
+
+// C17, explanations of different hits are independent objects: after the second
+// hit of a compound query has been scored and explained, the first hit's
+// explanation still shows its own constituents — its value is still the sum of
+// its children (times the boost) and the children are the first hit's leaf
+// scores.
+//
+// vf:harness property=C17 cases=shape:0..1;boosted:0..1
+// vf:bounds two leaves with two common documents, arbitrary scores per leaf and document; conjunction and disjunction; with and without a query boost
+// vf:assume float arithmetic uninterpreted (equalities hold for every interpretation)
+func VF_C17_ExplanationsOfEarlierHitsStay(shape int, boosted int) {
+	a := &vfTwoHitLeaf{scores: [2]float64{vfFloat64("a1"), vfFloat64("a2")}}
+	b := &vfTwoHitLeaf{scores: [2]float64{vfFloat64("b1"), vfFloat64("b2")}}
+	boost := 1.0
+	if boosted == 1 {
+		boost = vfFloat64("boost")
+		vfAssume(boost != 1.0)
+	}
+	opts := search.SearcherOptions{Explain: true}
+	var s search.Searcher
+	var err error
+	if shape == 0 {
+		s, err = NewConjunctionSearcher(nil, []search.Searcher{a, b}, similarity.NewCompositeSumScorerWithBoost(boost), opts)
+	} else {
+		s, err = NewDisjunctionSearcher(nil, []search.Searcher{a, b}, 1, similarity.NewCompositeSumScorerWithBoost(boost), opts)
+	}
+	vfAssert(err == nil, "builds")
+	ctx := search.NewSearchContext(8, 0)
+	first, err := s.Next(ctx)
+	vfAssert(err == nil && first != nil && first.Number == 5, "first hit")
+	firstScore := first.Score
+	second, err := s.Next(ctx)
+	vfAssert(err == nil && second != nil && second.Number == 9, "second hit")
+	// look at the first hit's explanation again, now that the second was scored
+	e := first.Explanation
+	vfAssert(e != nil, "the first hit is explained")
+	vfAssert(vfSameFloat(e.Value, firstScore), "the first hit's explanation still carries its score")
+	sum := e
+	if boosted == 1 {
+		// boosted: value = boost * sum node
+		vfAssert(len(e.Children) == 2, "a boosted compound node has the boost and the sum as children")
+		if len(e.Children) == 2 {
+			sum = e.Children[1]
+			if !vfSameFloat(e.Children[0].Value, boost) {
+				sum = e.Children[0]
+			}
+		}
+	}
+	vfAssert(len(sum.Children) == 2, "the sum node of the first hit has one child per matching part")
+	if len(sum.Children) == 2 {
+		vfAssert(vfSameFloat(sum.Children[0].Value, a.scores[0]) && vfSameFloat(sum.Children[1].Value, b.scores[0]), "the first hit's explanation still shows the first hit's constituents after the second hit was scored")
+	}
+}
